@@ -86,37 +86,129 @@ func runC02(r *an.Run) {
 		})
 
 	r.Obl("ReceiveRevocation.persist-dominates-advance", "PATH",
-		"MUST(channelState.AdvanceCommitChainTail ok -> commitChains.Remote.advanceTail and every success return); AdvanceCommitChainTail is given the forwarding package built for this revocation, unsignedLocalUpdates(remote tip's local index, local tail's local index) and the two output indexes found on the revoked commitment",
-		"advancing the in-memory remote chain before the revocation is durable desynchronises memory and disk", 3,
+		"MUST(channelState.AdvanceCommitChainTailWithRevocation ok -> commitChains.Remote.advanceTail and every success return); that call is given the secret of the message (NewHash(revMsg.Revocation)), the message's NextRevocationKey, the forwarding package built for this revocation, unsignedLocalUpdates(remote tip's local index, local tail's local index) and the two output indexes found on the revoked commitment; ReceiveRevocation itself neither adds to the revocation store nor assigns the remote revocation points nor calls the store transition directly; OpenChannel.AdvanceCommitChainTailWithRevocation takes the channel mutex once (released by defer only), refuses restored channels, and below the lock does, in this order and each exactly once: RevocationStore.AddNextEntry(secret parameter) whose failure leaves before anything else changes, RemoteCurrentRevocation = RemoteNextRevocation, RemoteNextRevocation = the point parameter, Db.AdvanceCommitChainTail(c, the package, the updates, the two indexes) whose result is what every non-failing return hands out",
+		"advancing the in-memory remote chain before the revocation is durable desynchronises memory and disk; a secret or point that changes in memory outside the step that persists it (or after a failed insertion) is replaced by a reload or persisted next to a commitment it does not belong to", 30,
 		func(o *an.Obl) {
 			f := p.Func("lnwallet.LightningChannel.ReceiveRevocation")
-			persist := f.Calls(an.CalleeIs("chanstate.OpenChannel.AdvanceCommitChainTail"), false)
+			persist := f.Calls(an.CalleeIs("chanstate.OpenChannel.AdvanceCommitChainTailWithRevocation"), false)
 			adv := f.Calls(an.CalleeIs("lnwallet.commitmentChain.advanceTail"), false)
 			if need(o, f, "commitChains.Remote.advanceTail", adv, 1) {
-				mustPass(o, f, "AdvanceCommitChainTail", persist, an.OkErrNil, adv)
+				mustPass(o, f, "AdvanceCommitChainTailWithRevocation", persist, an.OkErrNil, adv)
 			}
-			mustPass(o, f, "AdvanceCommitChainTail", persist, an.OkErrNil, f.SuccessReturns())
-			// what is made durable: the forwarding package built for this
+			mustPass(o, f, "AdvanceCommitChainTailWithRevocation", persist, an.OkErrNil, f.SuccessReturns())
+			// what is made durable: the secret and the next point of this
+			// message, the forwarding package built for this
 			// revocation, our updates the peer still has to sign (bounds of
 			// unsignedLocalUpdates: remote tip's and local tail's local index)
 			// and the output indexes found on the revoked commitment
-			if needExactly(o, f, "AdvanceCommitChainTail", persist, 1) {
-				c02ArgsAre(o, f, persist[0], "AdvanceCommitChainTail", map[int]string{
-					0: `^channeldb\.NewFwdPkg\(`,
-					1: `^\$recv\.unsignedLocalUpdates\(\$recv\.commitChains\.Remote\.tip\(\)\.messageIndices\.Local, \$recv\.commitChains\.Local\.tail\(\)\.messageIndices\.Local\)$`,
-					2: `^lnwallet\.findOutputIndexesFromRemote\(.*\)$`,
-					3: `^lnwallet\.findOutputIndexesFromRemote\(.*\)#1$`,
+			c02ParamsStable(o, f)
+			if needExactly(o, f, "AdvanceCommitChainTailWithRevocation", persist, 1) {
+				c02ArgsAre(o, f, persist[0], "AdvanceCommitChainTailWithRevocation", map[int]string{
+					0: `(^|[./])chainhash(/v2)?\.NewHash\(\$p0\.Revocation\[:\]\)$`,
+					1: `^\$p0\.NextRevocationKey$`,
+					2: `^channeldb\.NewFwdPkg\(`,
+					3: `^\$recv\.unsignedLocalUpdates\(\$recv\.commitChains\.Remote\.tip\(\)\.messageIndices\.Local, \$recv\.commitChains\.Local\.tail\(\)\.messageIndices\.Local\)$`,
+					4: `^lnwallet\.findOutputIndexesFromRemote\(.*\)$`,
+					5: `^lnwallet\.findOutputIndexesFromRemote\(.*\)#1$`,
 				})
+				if recv := f.Canon(persist[0].Node.(*ast.CallExpr).Fun); recv != "$recv.channelState.AdvanceCommitChainTailWithRevocation" {
+					o.FailAt(f.ID+"#persisted-channel", persist[0].Where(), "ReceiveRevocation persists through %s, expected the channel's own state", recv)
+				}
 				if needExactly(o, f, "commitChains.Remote.advanceTail", adv, 1) {
 					if recv := f.Canon(adv[0].Node.(*ast.CallExpr).Fun); recv != "$recv.commitChains.Remote.advanceTail" {
 						o.FailAt(f.ID+"#advanced-chain", adv[0].Where(), "ReceiveRevocation advances %s, expected the remote chain", recv)
 					}
 				}
 			}
+			// the revocation state changes in the persisting step only
+			point := an.Or(an.Field("chanstate.OpenChannel", "RemoteCurrentRevocation", nil), an.Field("chanstate.OpenChannel", "RemoteNextRevocation", nil),
+				an.Field("chanstate.OpenChannel", "RevocationStore", nil))
+			for _, fn := range append([]*an.Func{f}, f.Lits...) {
+				for _, s := range fn.Assigns(c02StoredInto(point), false) {
+					o.FailAt(f.ID+"#rotates-outside-the-persisting-step", s.Where(), "ReceiveRevocation changes the remote revocation state itself (%s): the change is not covered by the lock and the write of AdvanceCommitChainTailWithRevocation", s.String())
+				}
+				for _, s := range fn.Calls(an.CalleeNamed("AddNextEntry"), false) {
+					o.FailAt(f.ID+"#stores-outside-the-persisting-step", s.Where(), "ReceiveRevocation adds to the revocation store itself (%s): the insertion is not covered by the lock and the write of AdvanceCommitChainTailWithRevocation", s.String())
+				}
+				for _, s := range fn.Calls(an.CalleeNamed("AdvanceCommitChainTail"), false) {
+					o.FailAt(f.ID+"#second-persist", s.Where(), "ReceiveRevocation also calls %s: the remote chain is advanced on disk once per revocation, together with the secret", s.String())
+				}
+			}
+
+			// the persisting step of the channel state
+			g := p.Func("chanstate.OpenChannel.AdvanceCommitChainTailWithRevocation")
+			c02ParamsStable(o, g)
+			locks := g.Calls(an.CalleeNamed("Lock", "RLock"), true)
+			unlocks := g.Calls(an.CalleeNamed("Unlock", "RUnlock"), true)
+			add := g.Calls(an.CalleeNamed("AddNextEntry"), true)
+			store := g.Calls(an.CalleeNamed("AdvanceCommitChainTail"), true)
+			cur := g.Assigns(c02StoredInto(an.Field("chanstate.OpenChannel", "RemoteCurrentRevocation", nil)), true)
+			next := g.Assigns(c02StoredInto(an.Field("chanstate.OpenChannel", "RemoteNextRevocation", nil)), true)
+			if len(g.Lits) > 0 {
+				o.FailAt(g.ID+"#closures", g.Where(g.Body.Pos()), "%s contains %d function literals; its steps are expected in the method body, under the lock", g.ID, len(g.Lits))
+			}
+			if !needExactly(o, g, "c.Lock()", locks, 1) || !needExactly(o, g, "c.Unlock()", unlocks, 1) ||
+				!needExactly(o, g, "RevocationStore.AddNextEntry", add, 1) || !needExactly(o, g, "Db.AdvanceCommitChainTail", store, 1) ||
+				!needExactly(o, g, "assignment of RemoteCurrentRevocation", cur, 1) || !needExactly(o, g, "assignment of RemoteNextRevocation", next, 1) {
+				return
+			}
+			for what, s := range map[string]an.Site{"Lock": locks[0], "Unlock": unlocks[0]} {
+				if recv := g.Canon(s.Node.(*ast.CallExpr).Fun); recv != "$recv."+what {
+					o.FailAt(g.ID+"#mutex-"+what, s.Where(), "%s calls %s, expected the channel's own mutex ($recv.%s)", g.ID, recv, what)
+				}
+			}
+			if !c07IsDeferredCall(g, unlocks[0].Node.(*ast.CallExpr)) {
+				o.FailAt(g.ID+"#explicit-unlock", unlocks[0].Where(), "%s releases the channel mutex by an explicit call (%s): the steps after it are not covered", g.ID, unlocks[0].String())
+			}
+			if c07IsDeferredCall(g, locks[0].Node.(*ast.CallExpr)) {
+				o.FailAt(g.ID+"#deferred-lock", locks[0].Where(), "%s defers taking the channel mutex", g.ID)
+			}
+			steps := []struct {
+				what string
+				s    an.Site
+			}{{"RevocationStore.AddNextEntry", add[0]}, {"RemoteCurrentRevocation = …", cur[0]}, {"RemoteNextRevocation = …", next[0]}, {"Db.AdvanceCommitChainTail", store[0]}}
+			restored := an.Truth(an.CallNamed("hasChanStatus", an.Recv(), an.PkgVar("chanstate", "ChanStatusRestored")), false, "!hasChanStatus(ChanStatusRestored)")
+			for i, st := range steps {
+				before(o, g, "c.Lock()", locks, st.what, []an.Site{st.s})
+				guarded(o, g, st.s, restored)
+				if i > 0 {
+					before(o, g, steps[i-1].what, []an.Site{steps[i-1].s}, st.what, []an.Site{st.s})
+				}
+			}
+			// a refused secret changes nothing
+			mustPass(o, g, "RevocationStore.AddNextEntry", add, an.OkErrNil, []an.Site{cur[0], next[0], store[0]})
+			mustPass(o, g, "Db.AdvanceCommitChainTail", store, an.OkErrNil, g.SuccessReturns())
+			if recv := g.Canon(add[0].Node.(*ast.CallExpr).Fun); recv != "$recv.RevocationStore.AddNextEntry" {
+				o.FailAt(g.ID+"#store", add[0].Where(), "the secret is added through %s, expected the channel's RevocationStore", recv)
+			}
+			c02ArgsAre(o, g, add[0], "AddNextEntry", map[int]string{0: `^\$p0$`})
+			if recv := g.Canon(store[0].Node.(*ast.CallExpr).Fun); recv != "$recv.Db.AdvanceCommitChainTail" {
+				o.FailAt(g.ID+"#db", store[0].Where(), "the transition is written through %s, expected the channel's Db", recv)
+			}
+			c02ArgsAre(o, g, store[0], "Db.AdvanceCommitChainTail", map[int]string{0: `^\$recv$`, 1: `^\$p2$`, 2: `^\$p3$`, 3: `^\$p4$`, 4: `^\$p5$`})
+			for _, pr := range []struct {
+				s          an.Site
+				lhs, rhs   string
+				whatIsThat string
+			}{
+				{cur[0], "$recv.RemoteCurrentRevocation", "$recv.RemoteNextRevocation", "the point that was next"},
+				{next[0], "$recv.RemoteNextRevocation", "$p1", "the point parameter"},
+			} {
+				as, ok := pr.s.Node.(*ast.AssignStmt)
+				if !ok || len(as.Lhs) != 1 || len(as.Rhs) != 1 || as.Tok.String() != "=" {
+					o.FailAt(g.ID+"#rotation-shape", pr.s.Where(), "%s: expected a plain assignment of one revocation point", pr.s.String())
+					continue
+				}
+				l, r := g.Canon(as.Lhs[0]), g.Canon(as.Rhs[0])
+				o.Site("%s: %s <- %s", g.ID, l, r)
+				if l != pr.lhs || r != pr.rhs {
+					o.FailAt(g.ID+"#rotation-"+pr.lhs, pr.s.Where(), "%s assigns %s <- %s, expected %s <- %s (%s)", g.ID, l, r, pr.lhs, pr.rhs, pr.whatIsThat)
+				}
+			}
 		})
 
 	r.Obl("memory-after-disk", "PATH",
-		"OpenChannel.UpdateCommitment assigns c.LocalCommitment only after Db.UpdateChannelCommitment ok, and assigns the commitment it handed to the store; ChannelStateDB.AdvanceCommitChainTail assigns channel.RemoteCommitment (or any part of it) exactly once, after its kvdb.Update ok and never inside the transaction closure, from the Commitment of the diff read under commitDiffKey in that transaction; no other non-test function writes the two commitments or a part of them (the funding flow fills parts of the not yet persisted partialState); the three OpenChannel wrappers refuse restored channels and delegate to the store",
+		"OpenChannel.UpdateCommitment assigns c.LocalCommitment only after Db.UpdateChannelCommitment ok, and assigns the commitment it handed to the store; ChannelStateDB.AdvanceCommitChainTail assigns channel.RemoteCommitment (or any part of it) exactly once, after its kvdb.Update ok and never inside the transaction closure, from the Commitment of the diff read under commitDiffKey in that transaction; no other non-test function writes the two commitments or a part of them (the funding flow fills parts of the not yet persisted partialState); the four OpenChannel wrappers (UpdateCommitment, AppendRemoteCommitChain, AdvanceCommitChainTail, AdvanceCommitChainTailWithRevocation) refuse restored channels and delegate to the store",
 		"the in-memory commitment is what ForceClose broadcasts; it must never run ahead of disk", 8,
 		func(o *an.Obl) {
 			f := p.Func("chanstate.OpenChannel.UpdateCommitment")
@@ -208,6 +300,7 @@ func runC02(r *an.Run) {
 				{"chanstate.OpenChannel.UpdateCommitment", "UpdateChannelCommitment"},
 				{"chanstate.OpenChannel.AppendRemoteCommitChain", "AppendRemoteCommitChain"},
 				{"chanstate.OpenChannel.AdvanceCommitChainTail", "AdvanceCommitChainTail"},
+				{"chanstate.OpenChannel.AdvanceCommitChainTailWithRevocation", "AdvanceCommitChainTail"},
 			} {
 				wf := p.Func(w.fn)
 				calls := wf.Calls(an.CalleeNamed(w.store), false)
